@@ -1,8 +1,9 @@
-SPECIFICATION MatSpec
+SPECIFICATION SampleSpec
 CONSTANTS
   N = 127
   GenMax <- G8_Max
   GenShapes <- GS_Shapes
+  SampleK = 40
   GenVals <- GS_Vals
 INVARIANT EmitMat
 CHECK_DEADLOCK FALSE
